@@ -31,8 +31,9 @@ def is_sym(a):
 class Interp:
     """mode 'real': floats are z3 Reals, ints z3 Ints.  mode 'fp32': floats Float32."""
 
-    def __init__(self, mode="real", poison_ok=False, chol="explicit", memo=None, tag=""):
+    def __init__(self, mode="real", poison_ok=False, chol="explicit", memo=None, tag="", finite_uf=False):
         self.mode = mode
+        self.finite_uf = finite_uf    # real mode: `is_finite(x)` is an arbitrary predicate of x (error paths for non-finite values become reachable)
         self.poison_ok = poison_ok
         self.poisoned = []
         self.chol = chol          # "explicit": written-out factorisation (n<=3); "contract": L L^T = A stub
@@ -373,6 +374,9 @@ class Interp:
 
     def p_is_finite(self, e, a):
         if self.mode == "real":
+            if self.finite_uf:
+                fin = z3.Function("is_finite", z3.RealSort(), z3.BoolSort())
+                return self.ew(lambda x: z3.BoolVal(not isinstance(x, NonFinite)) if (isinstance(x, NonFinite) or not z3.is_expr(x) or z3.is_rational_value(x)) else fin(x), *a)
             return self.ew(lambda x: z3.BoolVal(not isinstance(x, NonFinite)), *a)
         return self.ew(lambda x: z3.And(z3.Not(z3.fpIsNaN(x)), z3.Not(z3.fpIsInf(x))), *a)
 
